@@ -43,7 +43,8 @@ RULE = ("source classes from hierarchies of 1..5 classes (mutable, ImmutableStru
         "are drawn from EVERY declaration of that name in the source's hierarchy; "
         "compositions of 1..3 operators drawn from Partial / AllFieldsRequired / Extend / Omit / Pick (subscript, "
         "named subscript and Structure.omit/pick spellings) over random subsets of the field names (incl. repeated and "
-        "unknown names), derived classes further extended by subclassing with new / redeclared fields and derived "
+        "unknown names; the names argument of Omit / Pick passed as tuple, list, set, frozenset, dict keys view, generator "
+        "expression, iter(list), filter / map object or a bare one-character str), derived classes further extended by subclassing with new / redeclared fields and derived "
         "again; per retained field a shared value stream (valid, boundary neighbours, type confusion, None) on source "
         "vs derived; non-trivial = >= 2 class-creating statements; distinct by sha256 of the case line")
 ASSUMPTIONS = [
